@@ -22,9 +22,9 @@ Open Scope N_scope.
    operations on files and chunks whose names satisfy [hist_guard] (relative
    file names, relative non-empty scale keys - possibly nested -, no accepted
    name with a component ending in ".gz", accepted names pairwise prefix-free,
-   other-layout chunk paths unused, MIME exemption fixed per name; empty
-   names, and names or keys mentioning "..", may occur and are refused on
-   both sides),
+   other-layout chunk paths unused; the MIME type is arbitrary in every
+   operation (one name may be stored under several MIME classes); empty names,
+   and names or keys mentioning "..", may occur and are refused on both sides),
    started on a fresh dataset location, every returned value / outcome is the
    one of the abstract map: fetch returns the bytes most recently stored,
    store without overwrite on an existing name fails. *)
@@ -45,28 +45,31 @@ Theorem C12_guard_example : forall f g,
 Proof. intros f g. split; [apply guard_example | apply fresh_example]. Qed.
 Print Assumptions C12_guard_example.
 
-(* the simulation invariant holds in every state reached by a guarded history
-   (this is what the following two statements are relative to) *)
+(* the simulation invariant holds in every state reached by a guarded history,
+   for some assignment [fm] of a form (plain / .gz) to the names: a stored name
+   exists in exactly that form (Inv's i_phys + i_files: no other file below
+   the base) *)
 Theorem C12_reachable_inv :
   forall (B : Type) (plain : list N -> B) (gz : N -> list N -> B) (gunzip : B -> gzres),
   (forall l b, gunzip (gz l b) = GzOk b) ->
   forall c ops t0,
   hist_guard c ops = true -> fresh B c t0 ->
-  Inv B plain gz c (ex_of (flat c) ops) (names_of (flat c) ops)
+  exists fm, Inv B plain gz c (names_of (flat c) ops) fm
       (snd (run_ops B plain gz gunzip c t0 ops)) (snd (spec_ops (flat c) [] ops)).
 Proof. exact reachable_inv. Qed.
 Print Assumptions C12_reachable_inv.
 
-(* (2) storing an existing name without permission to overwrite fails with a
-   data-access error and the stored content is untouched *)
+(* (2) storing an existing name without permission to overwrite, under ANY
+   MIME type (also one of the other class), fails with a data-access error and
+   the stored content is untouched *)
 Theorem C12_no_overwrite_preserves :
   forall (B : Type) (plain : list N -> B) (gz : N -> list N -> B),
-  forall c ex U X t m n buf mime old,
+  forall c U X fm t m n buf mime old,
   cleanb (base c) = true -> universe_okb U X = true ->
-  Inv B plain gz c ex U t m -> In n U -> exempt mime = ex n -> aget m n = Some old ->
-  exists t', run B (plain []) t (store_at B plain gz c (base c ++ n) buf mime false) = (AccessErr, t')
-          /\ Inv B plain gz c ex U t' m
-          /\ lookup B t' (phys c ex n) = Some (File (enc B plain gz c ex n old)).
+  Inv B plain gz c U fm t m -> In n U -> aget m n = Some old ->
+  exists t' fm', run B (plain []) t (store_at B plain gz c (base c ++ n) buf mime false) = (AccessErr, t')
+          /\ Inv B plain gz c U fm' t' m
+          /\ lookup B t' (phys c fm' n) = Some (File (enc B plain gz c fm' n old)).
 Proof. exact no_overwrite_preserves. Qed.
 Print Assumptions C12_no_overwrite_preserves.
 
@@ -78,14 +81,18 @@ Theorem C12_path_spec : forall c is_flat key co,
 Proof. exact chunk_path_spec. Qed.
 Print Assumptions C12_path_spec.
 
+(* a successful store leaves the name at the documented path, compressed iff
+   gzip is on and the MIME type of this store is not exempt, and the other
+   form of the name does not exist (never both forms) *)
 Theorem C12_store_lands :
   forall (B : Type) (plain : list N -> B) (gz : N -> list N -> B),
-  forall c ex U X t m n buf mime ow t' r,
+  forall c U X fm t m n buf mime ow t' r,
   cleanb (base c) = true -> universe_okb U X = true ->
-  Inv B plain gz c ex U t m -> In n U -> exempt mime = ex n ->
+  Inv B plain gz c U fm t m -> In n U ->
   run B (plain []) t (store_at B plain gz c (base c ++ n) buf mime ow) = (Ok r, t') ->
   lookup B t' (base c ++ (if gzip c && negb (exempt mime) then with_gz n else n))
-  = Some (File (if gzip c && negb (exempt mime) then gz (level c) buf else plain buf)).
+  = Some (File (if gzip c && negb (exempt mime) then gz (level c) buf else plain buf)) /\
+  lookup B t' (base c ++ (if gzip c && negb (exempt mime) then n else with_gz n)) = None.
 Proof. exact store_lands. Qed.
 Print Assumptions C12_store_lands.
 
@@ -124,21 +131,23 @@ Theorem C12_cross_config_on_guard :
 Proof. exact cross_config_correct. Qed.
 Print Assumptions C12_cross_config_on_guard.
 
-(* the guard "single writer configuration" is needed: in a tree written under
-   two configurations the copy that is found is fixed by the probe order
-   (plain before .gz; deep after flat), not by recency.  (The property speaks
-   of datasets written under one configuration, so these are not findings.) *)
-Theorem C12_cross_config_mixed_gzip_refuted :
+(* writers with gzip on and off may be mixed: the later writer removes the
+   other form, every reader sees the latest bytes *)
+Theorem C12_cross_config_mixed_gzip :
   exists name old new,
     let t1 := snd (w_run (w_cfg false false) [OStoreFile name old [] true]) in
     let '(_, t2) := run_ops blob BPlain BGz (blob_gunzip []) (w_cfg false true) t1
                             [OStoreFile name new [] true] in
     old <> new /\
     forall f g, fst (run_ops blob BPlain BGz (blob_gunzip []) (w_cfg f g) t2 [OFetchFile name])
-                = [Ok (VData (BPlain old))].
-Proof. exact mixed_config_refuted. Qed.
-Print Assumptions C12_cross_config_mixed_gzip_refuted.
+                = [Ok (VData (BPlain new))].
+Proof. exact mixed_gzip_latest_wins. Qed.
+Print Assumptions C12_cross_config_mixed_gzip.
 
+(* the guard "single writer LAYOUT" is needed: in a tree written under flat
+   and deep layouts the copy that is found is fixed by the probe order (deep
+   after flat), not by recency.  (The property speaks of datasets written
+   under one configuration, so this is not a finding.) *)
 Theorem C12_cross_config_mixed_layout_refuted :
   exists key co old new,
     let t1 := snd (w_run (w_cfg false false) [OStoreChunk key co old [] true]) in
